@@ -96,10 +96,10 @@ OpenClauses(P, e, Q) ==
   LET adopted == Present(P.files)
       evd     == adopted \ Q.entries
   IN IF e.result # "ok" THEN Failing({<<"ForeignUntouched", Q.foreign = P.foreign>>,
-                                      <<"RejectedOpenKeepsFiles", Q.files = P.files>>})
+                                      <<"RejectedOpenKeepsFiles", \A k \in Key : Q.files[k].st = P.files[k].st>>})
      ELSE Failing({
     <<"EntriesEqualFiles", Q.entries = Present(Q.files)>>,
-    <<"OpenKeepsFiles", \A k \in Key : Q.files[k] = P.files[k] \/ (k \in evd /\ Q.files[k].st = "none")>>,
+    <<"OpenKeepsFiles", \A k \in Key : Q.files[k].st = P.files[k].st \/ (k \in evd /\ Q.files[k].st = "none")>>,
     <<"NoEvictionWhenFits", TotalKB(P.files, adopted) <= Q.max => evd = {}>>,
     <<"EvictOnlyOnRequest", ~e.evict => evd = {}>>,
     <<"SizeBound", TotalKB(Q.files, Q.entries) <= Q.max>>,
@@ -111,7 +111,7 @@ OpenClauses(P, e, Q) ==
 RemoveClauses(P, e, Q) ==
   Failing({
     <<"RemoveDropsEntryAndFile", e.key \in P.entries => (e.key \notin Q.entries /\ Q.files[e.key].st = "none")>>,
-    <<"OthersIntact", \A k \in P.entries \ {e.key} : k \in Q.entries /\ Q.files[k] = P.files[k]>>,
+    <<"OthersIntact", \A k \in P.entries \ {e.key} : k \in Q.entries /\ Q.files[k].st = P.files[k].st>>,
     <<"NoNewEntries", Q.entries \subseteq P.entries>>,
     <<"MaxUnchanged", Q.max = P.max>>,
     <<"ForeignUntouched", Q.foreign = P.foreign>>
